@@ -44,7 +44,9 @@ func residueProbes(r *h.Rand) []*prog {
 	p12 := mk(`P12[{{ apiLetGlobal("gl2", 5) }}{{gl2}}{{isset(leak)}}]`, vNil())
 	p12.vars = sx.L()
 	p12.globals.Add(bind("apiLetGlobal", vJFunc("apiLetGlobal")))
-	ps = append(ps, p11, p12)
+	// the debugging built-in: what it prints is a function of this execution's variables and context only
+	p13 := mk(`P13[{{ dump("li", "m") }}|{{ dump() }}]`, vInt(7))
+	ps = append(ps, p11, p12, p13)
 	for _, p := range ps {
 		p.files["/inc.jet"] = `I{{.}}{{isset(x)}}`
 	}
@@ -83,8 +85,12 @@ func residueFailers(r *h.Rand) []*prog {
 		novars(mk(`{{ apiLetGlobal("leak", "` + secret + `") }}[{{leak}}]{{ fail("after a root binding") }}`)),
 		novars(mk(`{{if true}}{{ apiLetGlobal("leak", "` + secret + `") }}{{ apiSetOrLet("gl2", 1) }}{{end}}{{ gl2 }}{{ missing }}`)),
 		novars(mk(`{{ apiLetGlobal("leak", "` + secret + `") }}[{{leak}}]`)),
+		nodata(mk(`D[{{ dump() }}]`)),                              // fails half-way: there is no context to describe
+		nodata(mk(`D[{{ dump("li", "nosuchvar", "m") }}{{ dump() }}]`)), // a name that is not there, then the failing form
 	}
 }
+
+func nodata(p *prog) *prog { p.data = vNil(); return p }
 
 // novars: the program is executed with a nil VarMap; the API functions it uses are Set globals
 func novars(p *prog) *prog {
